@@ -1034,6 +1034,29 @@ func (c *concRun) quiescentChecks() {
 			}
 		}
 	}
+	// an acknowledged image is complete: what it names is there (a push is acknowledged only if its config and layers
+	// exist, and what a present manifest names is retained; the workload never deletes blobs)
+	for _, repo := range w.x.p.Repos {
+		for _, d := range sortedKeys(c.acked[repo]) {
+			if c.delMan[repo][d] {
+				continue
+			}
+			r := w.do(reqSpec{method: "GET", path: "/v2/" + repo + "/manifests/" + d, hdr: http.Header{"Accept": {mtOCIManifest, mtOCIIndex, mtDockManifest, mtDockList}}, repos: []string{repo}})
+			if r.Code != 200 {
+				continue
+			}
+			for _, ref := range parseManifest(r.Body).imgRefs {
+				if !validDigest(ref) {
+					continue
+				}
+				rb := w.do(reqSpec{method: "HEAD", path: "/v2/" + repo + "/blobs/" + ref, repos: []string{repo}})
+				if rb.Code != 200 {
+					w.x.viol(c.speaks("C04", "C05"), "conc.incomplete-image", "config or layer of an acknowledged image is missing", fmt.Sprintf("%s: manifest %s was acknowledged and is served, nobody deleted anything it names, and %s answers %d once everything is quiet", repo, d, ref, rb.Code))
+					return
+				}
+			}
+		}
+	}
 	// acknowledged uploads are there (only where no collection can have taken an unreferenced blob)
 	if !w.naturalGC() {
 		for _, repo := range sortedKeys(c.uploaded) {
